@@ -19,6 +19,7 @@ import (
 
 	"github.com/emitter-io/emitter/internal/event"
 	"github.com/emitter-io/emitter/internal/event/crdt"
+	"github.com/emitter-io/emitter/internal/message"
 	"github.com/emitter-io/emitter/internal/network/mqtt"
 	"github.com/emitter-io/emitter/internal/security"
 	"github.com/emitter-io/emitter/internal/service/cluster"
@@ -107,7 +108,8 @@ var (
 	order   []string
 	luids   map[string]uint64
 	key     string
-	fwdLog  []int // brokers a frame was handed to since the last reset of the log
+	fwdLog  []int // brokers a frame with the wanted payload was handed to since the last reset of the log
+	wanted  string
 	nowVal  int64 = 1
 )
 
@@ -131,7 +133,16 @@ func (f *fake) GossipBroadcast(update mesh.GossipData) {
 func (f *fake) GossipUnicast(dst mesh.PeerName, msg []byte) error {
 	x := int(dst)
 	mu.Lock()
-	fwdLog = append(fwdLog, x)
+	// the broker's self monitor publishes stats on its own timer: only frames that carry the
+	// payload of the publish under observation count as forwarded
+	if frame, err := message.DecodeFrame(append([]byte{}, msg...)); err == nil {
+		for _, m := range frame {
+			if string(m.Payload) == wanted {
+				fwdLog = append(fwdLog, x)
+				break
+			}
+		}
+	}
 	l := links[[2]int{f.self, x}]
 	ok := l != nil && l.up && x >= 1 && x <= len(nodes)
 	mu.Unlock()
@@ -398,13 +409,17 @@ func drain() string {
 			}
 		}
 	}
-	return fmt.Sprintf("n=%d", n)
+	ds := make([]string, len(nodes))
+	for i := range nodes {
+		ds[i] = dump(i + 1)
+	}
+	return fmt.Sprintf("n=%d %s", n, strings.Join(ds, " | "))
 }
 
 func publish(name, ch, payload string) string {
 	c, i := client(name)
 	mu.Lock()
-	fwdLog = nil
+	fwdLog, wanted = nil, string(vlib.UnHex(payload))
 	mu.Unlock()
 	c.Send(&mqtt.Publish{Header: mqtt.Header{QOS: 1}, MessageID: 7, Topic: topic(ch), Payload: vlib.UnHex(payload)})
 	c.Await("puback:")
